@@ -48,7 +48,13 @@ func Harness_C13_direct_children() {
 	}
 	s := VerifComponent("S", 2, c13Alpha)
 	vm.Assume("/"+s != dir)
-	p.VerifInsert(&models.Header{Name: "/" + s, Typeflag: tar.TypeReg, Size: 5, Paxrecords: "{}"})
+	if vm.Bool("siblingIsDir") {
+		// a sibling directory with a member of its own: its name may relate to dir's by case or by an SQL wildcard
+		p.VerifInsert(&models.Header{Name: "/" + s, Typeflag: tar.TypeDir, Paxrecords: "{}"})
+		p.VerifInsert(&models.Header{Name: "/" + s + "/k", Typeflag: tar.TypeReg, Size: 7, Paxrecords: "{}"})
+	} else {
+		p.VerifInsert(&models.Header{Name: "/" + s, Typeflag: tar.TypeReg, Size: 5, Paxrecords: "{}"})
+	}
 	t := VerifComponent("T", 1, "ab")
 	vm.Assume(t != b)
 	p.VerifInsert(&models.Header{Name: dir + "/" + t, Typeflag: tar.TypeReg, Deleted: 1, Paxrecords: "{}"})
